@@ -335,6 +335,7 @@ func offsStr(o []uint64) string {
 type genOpts struct {
 	lcDistinct int // number of distinct values for LowCardinality rows (0 = default small)
 	bigStrings bool
+	emptyArrays bool // every array / map row is empty
 }
 
 var strLens = []int{0, 0, 1, 1, 2, 3, 7, 16, 127, 128, 129, 255, 256}
@@ -421,6 +422,13 @@ func genLeafRow(r *Rng, t *TNode, o genOpts) []byte {
 	return nil
 }
 
+func genOffsetsOpt(r *Rng, rows int, o genOpts) []uint64 {
+	if o.emptyArrays {
+		return make([]uint64, rows)
+	}
+	return genOffsets(r, rows)
+}
+
 func genOffsets(r *Rng, rows int) []uint64 {
 	offs := make([]uint64, rows)
 	var cur uint64
@@ -453,7 +461,7 @@ func genCol(r *Rng, t *TNode, rows int, o genOpts) *CNode {
 	case "nothing":
 		c.N = rows
 	case "arr":
-		c.Offs = genOffsets(r, rows)
+		c.Offs = genOffsetsOpt(r, rows, o)
 		n := 0
 		if rows > 0 {
 			n = int(c.Offs[rows-1])
@@ -498,7 +506,7 @@ func genCol(r *Rng, t *TNode, rows int, o genOpts) *CNode {
 			}
 		}
 	case "map":
-		c.Offs = genOffsets(r, rows)
+		c.Offs = genOffsetsOpt(r, rows, o)
 		n := 0
 		if rows > 0 {
 			n = int(c.Offs[rows-1])
